@@ -80,6 +80,31 @@ func runC12(c *Case) {
 			fail("record-error", err.Error())
 			return
 		}
+		// a read-only observer over the unmerged versions: its version list has several names
+		if nw >= 2 && r.Intn(4) == 0 {
+			ro := OpenConn("obs")
+			rt := tname(c, "obs")
+			if err := ro.Create(TableSpec{Name: rt, Cols: "k PRIMARY KEY, a, b, c", Store: w.st.Name, Client: fmt.Sprintf("obs%d", i), Prefix: w.prefix, EPN: epn, ReadOnly: true}); err == nil {
+				raw, e1 := ro.Scalar("select s3db_version('" + rt + "')")
+				d, e2 := ro.Dump(rt)
+				if e1 == nil && e2 == nil {
+					s := vsnap{Step: i, W: -1, Raw: strings.TrimPrefix(raw, "t:"), Names: parseVersionList(raw), Dump: d, ByKey: dumpByKey(d)}
+					h.snaps = append(h.snaps, s)
+					if len(s.Names) >= 2 {
+						c.Count("multi_version_snapshots", 1)
+						// and each of its members alone, so that subsets of a multi-version list get paired with it
+						for _, n := range s.Names {
+							if t, err := openVersions(w.st, fmt.Sprintf("obsm%d", i), w.prefix, []string{n}); err == nil {
+								if md, err := scanKV(t, hcols); err == nil {
+									h.snaps = append(h.snaps, vsnap{Step: i, W: -1, Raw: `["` + n + `"]`, Names: []string{n}, Dump: md, ByKey: dumpByKey(md)})
+								}
+							}
+						}
+					}
+				}
+			}
+			ro.Close()
+		}
 	}
 	// distinct versions only
 	var vs []vsnap
